@@ -234,6 +234,7 @@ func initSyncPrims() {
 	prims["lock.new"] = &Prim{1, func(in *Interp, th *Thread, a []Val) Val {
 		l := in.alloc([]Val{VBool{false}})
 		l.B.Kind = "lock"
+		in.syncBlocks = append(in.syncBlocks, l.B)
 		return l
 	}}
 	prims["lock.acquire"] = &Prim{1, func(in *Interp, th *Thread, a []Val) Val {
@@ -250,6 +251,7 @@ func initSyncPrims() {
 		lb := syncBlock(a[0], "lock", "lock.newCond")
 		c := in.alloc([]Val{VLoc{lb, 0}})
 		c.B.Kind = "cond"
+		in.syncBlocks = append(in.syncBlocks, c.B)
 		c.B.lockState().lock = lb
 		return c
 	}}
@@ -309,6 +311,7 @@ func initSyncPrims() {
 	prims["waitgroup.New"] = &Prim{1, func(in *Interp, th *Thread, a []Val) Val {
 		l := in.alloc([]Val{VInt{0}})
 		l.B.Kind = "wg"
+		in.syncBlocks = append(in.syncBlocks, l.B)
 		return l
 	}}
 	prims["waitgroup.Add"] = &Prim{2, func(in *Interp, th *Thread, a []Val) Val {
@@ -472,7 +475,24 @@ func runOnce(prog *Program, policy CapPolicy, entry string, prefix []int, maxDep
 	}
 	mainDone := false
 	var mainOutcome Outcome
-	idle, idleEpoch := 0, int64(-1)
+	// tried[id] = the store epoch at which thread id was last woken although suspended: it re-observed an
+	// unchanged state and is deterministic, so waking it again before anybody stores shows nothing new
+	tried := map[int]string{}
+	fromSusp := false
+	// the state a suspended thread would re-observe: the heap (store epoch) and the net state of the
+	// synchronisation objects (a polling thread acquires and releases on its way round: net effect none)
+	stateKey := func() string {
+		var sb strings.Builder
+		fmt.Fprintf(&sb, "%d", in.StoreEpoch)
+		for i, b := range in.syncBlocks {
+			st := b.lockState()
+			fmt.Fprintf(&sb, "|%d:%v:%d:%d", i, st.held, st.ctr, len(st.waiters))
+		}
+		for _, th := range s.threads {
+			fmt.Fprintf(&sb, "/%v%v", th.done, th.signalled)
+		}
+		return sb.String()
+	}
 	for {
 		// any thread failed?
 		failed := false
@@ -509,14 +529,26 @@ func runOnce(prog *Program, policy CapPolicy, entry string, prefix []int, maxDep
 				}
 			}
 		}
+		fromSusp = false
 		if len(en) == 0 && len(susp) > 0 {
-			// only threads that would re-observe an unchanged state are left
-			if in.StoreEpoch == idleEpoch {
-				idle++
-			} else {
-				idle, idleEpoch = 0, in.StoreEpoch
+			// only threads that would re-observe an unchanged state are left: each of them is woken once per
+			// store epoch (fairness: a thread that could change something is never starved by one that only
+			// polls); when every one of them has been woken since the last store and none stored, no thread
+			// can ever make progress
+			var cand []*Thread
+			key := stateKey()
+			for _, th := range susp {
+				if e, ok := tried[th.id]; !ok || e != key {
+					cand = append(cand, th)
+				}
 			}
-			if idle > 2*len(s.threads)+2 && !mainDone {
+			fromSusp = true
+			if len(cand) > 0 {
+				susp = cand
+			} else if mainDone {
+				finish(mainOutcome)
+				break
+			} else {
 				var who []string
 				for _, th := range s.threads {
 					if !th.done && th.pending != nil {
@@ -566,6 +598,9 @@ func runOnce(prog *Program, policy CapPolicy, entry string, prefix []int, maxDep
 			}
 		}
 		th := en[idx]
+		if fromSusp {
+			tried[th.id] = stateKey()
+		}
 		th.resume <- true
 		<-s.parked
 	}
